@@ -32,7 +32,7 @@ func init() {
 		MinEvals:        floor(100000, 500000),
 		MinDistinct:     floor(50000, 100000),
 		RequiredCells: func(string) []string {
-			return []string{"purity/command/history", "purity/command/concurrent", "rel/equal", "rel/parent", "rel/child", "rel/textual-prefix", "rel/sibling", "rel/top", "parse/accept", "parse/reject-noslash", "parse/reject-trailing", "parse/reject-upper", "join", "join/with-empty-segments", "parse/after-join", "parse/after-join-fresh-process", "transitivity/chain", "non-ascii-pairs", "lookalike-pairs", "parse/alphabet/other-uppercase"}
+			return []string{"purity/command/history", "held-results-reread", "join/long-result", "purity/command/concurrent", "rel/equal", "rel/parent", "rel/child", "rel/textual-prefix", "rel/sibling", "rel/top", "parse/accept", "parse/reject-noslash", "parse/reject-trailing", "parse/reject-upper", "join", "join/with-empty-segments", "parse/after-join", "parse/after-join-fresh-process", "transitivity/chain", "non-ascii-pairs", "lookalike-pairs", "parse/alphabet/other-uppercase"}
 		},
 	})
 	addSelfTest("R-cmd vs in-tree TestCovers vectors", selfTestCmd)
@@ -341,7 +341,26 @@ func runC15(w *mon.W) {
 	}
 
 	// Join / New
-	segAlpha := []string{"a", "b", "ab", "foo", "x-y", "é", "1", ".", "..", "...", "~", " ", "%2f", "a.b", "Up", "É", "a/", "/a", "Ⅳ"}
+	segAlpha := []string{"a", "b", "ab", "foo", "x-y", "é", "1", ".", "..", "...", "~", " ", "%2f", "a.b", "Up", "É", "a/", "/a", "Ⅳ", strings.Repeat("seg", 14), strings.Repeat("long-segment-", 8) + "end"}
+	// results are kept and read again at the very end, after everything else this shard does and
+	// a burst of unrelated commands: a Command is a value, what was returned once stays what it was
+	type heldCmd struct {
+		c         command.Command
+		want, how string
+	}
+	var held []heldCmd
+	defer func() {
+		churn(300)
+		for _, h := range held {
+			w.Eval(1)
+			if string(h.c) != h.want {
+				w.Violate("held-result-changed/"+h.how, fmt.Sprintf("a command returned by %s read %q when it was returned and reads %q at the end of the run", h.how, h.want, string(h.c)), map[string]any{"returned": h.want, "now": string(h.c), "how": h.how})
+			}
+		}
+		if len(held) > 0 {
+			w.Cover("held-results-reread")
+		}
+	}()
 	for i := 0; i < w.Share(w.Pick(5000, 50000)); i++ {
 		base := cmds[w.Rng.IntN(len(cmds))]
 		n := w.Rng.IntN(4)
@@ -355,6 +374,12 @@ func runC15(w *mon.W) {
 		w.Cover("join")
 		if string(got) != want {
 			w.Violate("join", fmt.Sprintf("Command(%q).Join(%q) = %q, want %q", base, segs, got, want), map[string]any{"base": base, "segs": segs})
+		}
+		if len(held) < 6000 {
+			held = append(held, heldCmd{got, strings.Clone(string(got)), "Join"})
+			if len(got) > 64 {
+				w.Cover("join/long-result")
+			}
 		}
 		// Join does not police its segments; the parser still does, also for a text that Join (or
 		// New) has just produced
@@ -370,8 +395,12 @@ func runC15(w *mon.W) {
 			w.Violate("join/segments", fmt.Sprintf("Command(%q).Join(%q).Segments() = %q", base, segs, got.Segments()), map[string]any{"base": base, "segs": segs})
 		}
 		if base == "/" {
-			if nw := command.New(segs...); string(nw) != want {
+			nw := command.New(segs...)
+			if string(nw) != want {
 				w.Violate("new", fmt.Sprintf("New(%q) = %q, want %q", segs, nw, want), map[string]any{"segs": segs})
+			}
+			if len(held) < 6000 {
+				held = append(held, heldCmd{nw, strings.Clone(string(nw)), "New"})
 			}
 		}
 		// with empty segments among them the exact result is not pinned by the property (dropped or
